@@ -5,7 +5,7 @@ from typing import List
 from ..model import Model, own_nodes, norm_stmt, AnalysisError, AnchorError, enclosing_stmt, ancestors
 from ..report import RuleResult
 from ..cfg import CFG
-from ..flow import function_defs, names_loaded, def_use_closure
+from ..flow import function_defs, names_loaded, def_use_closure, origins, origin_texts
 from ..rules import autograd as ac
 
 PROP = "C17"
@@ -118,14 +118,23 @@ def refresh_consistency(model: Model, G: RuleResult):
                 upd = None
                 ypar = None
                 fargs = None
+                fout = None
                 for s_ in w.body:
                     src = ast.unparse(s_)
                     if "__update_params()" in src:
                         upd = "stored" if isinstance(s_, ast.Expr) else ("returned:" + ast.unparse(s_.targets[0]) if isinstance(s_, ast.Assign) else src)
-                    if isinstance(s_, ast.Assign) and ast.unparse(s_.targets[0]) == "yparam":
-                        ypar = ast.unparse(s_.value)
                     if isinstance(s_, ast.Assign) and isinstance(s_.value, ast.Call) and ast.unparse(s_.value.func) == "self.fcn":
                         fargs = [ast.unparse(a) for a in s_.value.args]
+                        fout = ast.unparse(s_.targets[0])
+                # the differentiated input: whatever name the pull-back of the function output is taken w.r.t.
+                ynames = set()
+                for c in ast.walk(fi.node):
+                    if isinstance(c, ast.Call) and ast.unparse(c.func).endswith("autograd.grad") and len(c.args) >= 2 \
+                            and fout is not None and ast.unparse(c.args[0]) == fout and isinstance(c.args[1], (ast.Tuple, ast.List)):
+                        ynames |= {e.id for e in c.args[1].elts if isinstance(e, ast.Name)}
+                for s_ in w.body:
+                    if isinstance(s_, ast.Assign) and isinstance(s_.targets[0], ast.Name) and s_.targets[0].id in ynames:
+                        ypar = ast.unparse(s_.value)
                 return (tuple(items), upd, ypar, tuple(fargs or []))
         return None
     a, b = refresh_sig(mv), refresh_sig(rmv)
@@ -268,14 +277,36 @@ def _shape(model: Model, S: RuleResult):
     # yparam / v roles in _mv: differentiate dfdy w.r.t. v with grad_outputs from gy (double-backward trick)
     mv = model.func(JAC, "_Jac._mv")
     grads = [c for c in own_nodes(mv.node) if ac.is_autograd_grad(c)]
-    inner = [c for c in grads if len(c.args) >= 2 and ast.unparse(c.args[0]) == "dfdy" and ast.unparse(c.args[1]).replace(" ", "") == "(v,)"]
+    mdefs = function_defs(mv.node)
+
+    def single(e):
+        return e.elts[0] if isinstance(e, (ast.Tuple, ast.List)) and len(e.elts) == 1 else None
+
+    def is_fcn_output(e, dd):
+        return any(isinstance(o, ast.Call) and ast.unparse(o.func) == "self.fcn" for o in origins(e, dd))
+
+    def is_selected_arg(e, dd):
+        return any(isinstance(o, ast.Subscript) and ast.unparse(o) == "self.params[self.idx]" for o in origins(e, dd))
+    # first stage: vjp = grad(fcn output, (selected argument,), grad_outputs=v, create_graph=True); second stage: grad(vjp, (v,), gy)
+    inner = []
+    for g1 in grads:
+        go = ac._kw(g1, "grad_outputs")
+        if len(g1.args) >= 2 and is_fcn_output(g1.args[0], mdefs) and single(g1.args[1]) is not None \
+                and is_selected_arg(single(g1.args[1]), mdefs) and isinstance(go, ast.Name):
+            st = enclosing_stmt(g1)
+            tg = {n.id for t in getattr(st, "targets", []) for n in ast.walk(t) if isinstance(n, ast.Name)}
+            for g2 in grads:
+                if g2 is not g1 and len(g2.args) >= 2 and isinstance(g2.args[0], ast.Name) and g2.args[0].id in tg \
+                        and isinstance(single(g2.args[1]), ast.Name) and single(g2.args[1]).id == go.id:
+                    inner.append(g2)
     if inner:
         S.ok(mv.fq, "forward product differentiates the vector-Jacobian product w.r.t. the dummy cotangent v")
     else:
         S.bad(mv, mv.node, "forward product is not d(dfdy)/dv (double-backward trick)")
     rmv = model.func(JAC, "_Jac._rmv")
     grads = [c for c in own_nodes(rmv.node) if ac.is_autograd_grad(c)]
-    if any(len(c.args) >= 2 and ast.unparse(c.args[0]) == "yout" and ast.unparse(c.args[1]).replace(" ", "") == "(yparam,)" for c in grads):
+    rdefs = function_defs(rmv.node)
+    if any(len(c.args) >= 2 and is_fcn_output(c.args[0], rdefs) and single(c.args[1]) is not None and is_selected_arg(single(c.args[1]), rdefs) for c in grads):
         S.ok(rmv.fq, "transposed product is the plain backward of the output w.r.t. the selected argument")
     else:
         S.bad(rmv, rmv.node, "transposed product must be autograd.grad(yout, (yparam,), grad_outputs=...)")
